@@ -90,8 +90,9 @@ type VerifSched struct {
 	// LazyWindow: for statements that may end in an error without logging anything. A write inside the window is
 	// held back and becomes a problem only if the statement goes on to append to the log afterwards (then pages
 	// reached the data file before their log records); a statement that never logs has no log append to wait for.
-	LazyWindow bool
-	heldBack   []string
+	LazyWindow       bool
+	heldBack         []string
+	ownHeaderWritten bool
 }
 
 // VerifNewSched creates a scheduler; choose is the explorer's choice oracle.
@@ -165,6 +166,10 @@ func (s *VerifSched) access(t *schedThread, f *fileStore, kind string, change bo
 	}
 	if f != nil && !s.holds(t, f) {
 		s.problem("unsynchronised-access", "%s: %s by %s without holding the store lock (statement: %s)", "unsynchronised access", kind, t.name, s.stmtKind)
+	}
+	if change && t.store == nil && s.stmtOpen && s.ownHeaderWritten {
+		s.ownHeaderWritten = false
+		s.problem("write-inside-statement", "file header written by %s in the middle of the statement: it changed shared state again afterwards (%s, statement: %s)", t.name, kind, s.stmtKind)
 	}
 	if change && t.store == nil && s.stmtOpen && !s.changed {
 		s.changed = true
@@ -289,6 +294,9 @@ func (s *VerifSched) attach() {
 			s.record(t, "headerWrite")
 			s.access(t, f, "header write", false)
 			s.write(t, "file header")
+			if t.store == nil && s.stmtOpen {
+				s.ownHeaderWritten = true // (a statement's own flush ends with the header: nothing may change after it)
+			}
 			s.yield(t, f, "headerWrite")
 		}
 	}
@@ -303,6 +311,7 @@ func (s *VerifSched) attach() {
 					s.problem("write-inside-statement", "%s", msg)
 				}
 				s.heldBack = nil
+				s.ownHeaderWritten = false
 			}
 			if !s.LocksOnly {
 				s.yield(t, nil, "walWrite")
